@@ -18,7 +18,7 @@ PROPERTY = "C07"
 LEVEL = "model_checking"
 RULE = ("explicit-state search over operation histories (E3): a state is the history that reaches it, rebuilt on a fresh virtual "
         "loop by replaying the real LAN object against the reference V3 device. Events: send answered promptly / device silent / "
-        "error packet / peer close / handshake unanswered / connect refused, explicit authenticate with good or unknown credentials, "
+        "error packet / peer close / handshake unanswered / connect refused, explicit authenticate with good or unknown credentials, unanswered or with the connect refused, "
         "clock jump past the 12 h authentication lifetime, clock jumps past (and of 0.6x) the configured connection lifetime, cancellation of a "
         "send and of an explicit authenticate at every interval between loop events. (a) full history tree without de-duplication to depth D1; (b) breadth-first "
         "search with de-duplication on a name-agnostic structural fingerprint of the library objects + device state to depth D2. "
@@ -37,7 +37,7 @@ WRAPS = tuple(1 << k for k in range(8, 17))
 
 BASE_EVENTS = [
     ("send", "ok"), ("send", "silent"), ("send", "error"), ("send", "close"), ("send", "hs-silent"), ("send", "refuse"),
-    ("auth", "good"), ("auth", "bad"), ("auth", "hs-silent"),
+    ("auth", "good"), ("auth", "bad"), ("auth", "hs-silent"), ("auth", "refuse"),
     ("jump", "12h"), ("jump", "life"), ("jump", "part"),
 ]
 
@@ -236,6 +236,11 @@ def monitor(run: Run):
     for c in run.w.net.conns:
         if c.state.get("buf"):
             out.append(("I1 unframed bytes written", c.state["buf"][:16].hex()))
+        written = b"".join(d for _, d in c.writes)
+        framed = b"".join(e["raw"] for e in per_conn.get(c.index, []))
+        if written != framed + c.state.get("buf", b""):
+            # bytes the reference reassembler had to skip: not V3 packets at all (e.g. a bare V2 packet)
+            out.append(("I1 bytes that are not V3 packets written to the connection", f"conn {c.index}: {written[:16].hex()}"))
     # I4
     for i, m in enumerate(run.marks):
         if m["ev"][0] != "jump":
